@@ -98,15 +98,46 @@ func (c *Ctx) pkcs7Rules(r *Report, prefix string) {
 		return
 	}
 	f.lfMemo[bsParam] = konst(bs)
-	var mk *ssa.MakeSlice
+	var mk ssa.Value // the padding buffer: make([]byte, p), or a merge of that and a local array cut to [:p]
+	var mkLen ssa.Value
 	var ret *ssa.Return
 	for _, b := range fn.Blocks {
 		for _, ins := range b.Instrs {
 			if m, ok := ins.(*ssa.MakeSlice); ok {
-				mk = m
+				mk, mkLen = m, m.Len
 			}
 			if rt, ok := ins.(*ssa.Return); ok && isNilConst(rt.Results[1]) {
 				ret = rt
+			}
+		}
+	}
+	if ret != nil {
+		// what is appended to the plaintext, when it merges buffers of one length p that all belong to this call
+		if ap := isAppendCall(ret.Results[0]); ap != nil {
+			if ph, ok := ap.Call.Args[1].(*ssa.Phi); ok && isByteSlice(ph.Type()) {
+				var n ssa.Value
+				okAll := true
+				for _, e := range ph.Edges {
+					var l ssa.Value
+					switch x := e.(type) {
+					case *ssa.MakeSlice:
+						l = x.Len
+					case *ssa.Slice:
+						if al, isAl := x.X.(*ssa.Alloc); isAl && x.Low == nil && x.High != nil {
+							if _, isArr := arrayLen(al.Type()); isArr {
+								l = x.High
+							}
+						}
+					}
+					if l == nil || (n != nil && n != l) {
+						okAll = false
+						break
+					}
+					n = l
+				}
+				if okAll && n != nil {
+					mk, mkLen = ph, n
+				}
 			}
 		}
 	}
@@ -114,15 +145,16 @@ func (c *Ctx) pkcs7Rules(r *Report, prefix string) {
 		r.bad(rule, "padding buffer", c.Pos(fn.Pos()), "no make([]byte, padding) / success return found")
 		return
 	}
-	pad := f.LFOf(mk.Len)
-	facts := f.FactsAt(mk.Block())
+	mkIns := mk.(ssa.Instruction)
+	pad := f.LFOf(mkLen)
+	facts := f.FactsAt(mkIns.Block())
 	lo1, _ := f.Prove(pad.add(konst(1), -1), facts)
 	hi1, _ := f.Prove(konst(bs).add(pad, -1), facts)
 	plo, phi := f.bounds(pad, f.refine(facts))
-	r.Check(lo1 && hi1, rule, "1 <= p <= 16", c.InstrPos(mk), fmt.Sprintf("interval of the pad count is [%d, %d]", plo, phi), fmt.Sprintf("the pad count may lie outside [1, 16]: interval [%d, %d]", plo, phi))
+	r.Check(lo1 && hi1, rule, "1 <= p <= 16", c.InstrPos(mkIns), fmt.Sprintf("interval of the pad count is [%d, %d]", plo, phi), fmt.Sprintf("the pad count may lie outside [1, 16]: interval [%d, %d]", plo, phi))
 	// result = append(plainText param, paddingText...)
 	ap := isAppendCall(ret.Results[0])
-	okAp := ap != nil && paramIndex(fn, ap.Call.Args[0]) == 0 && ap.Call.Args[1] == ssa.Value(mk)
+	okAp := ap != nil && paramIndex(fn, ap.Call.Args[0]) == 0 && ap.Call.Args[1] == mk
 	r.Check(okAp, rule, "result = plaintext | padding", c.InstrPos(ret), "append(plainText, paddingText...)", "the result is not the plaintext followed by the padding buffer")
 	// last octet = p - 1
 	okLast := false
@@ -148,12 +180,12 @@ func (c *Ctx) pkcs7Rules(r *Report, prefix string) {
 			}
 		}
 	}
-	r.Check(okLast, rule, "last octet = p - 1 (pad length excludes itself)", c.InstrPos(mk), "paddingText[p-1] = byte(p-1) on the way to the return", "the pad-length octet is not p-1 at the last position")
+	r.Check(okLast, rule, "last octet = p - 1 (pad length excludes itself)", c.InstrPos(mkIns), "paddingText[p-1] = byte(p-1) on the way to the return", "the pad-length octet is not p-1 at the last position")
 	// length multiple of 16
 	total := f.SliceLen(fn.Params[0]).add(pad, 1)
 	// pad is a φ(16 - r, 16): check both edges
 	div := false
-	if phiV, ok := mk.Len.(*ssa.Phi); ok {
+	if phiV, ok := mkLen.(*ssa.Phi); ok {
 		div = true
 		for _, e := range phiV.Edges {
 			t := f.SliceLen(fn.Params[0]).add(f.LFOf(e), 1)
@@ -169,7 +201,7 @@ func (c *Ctx) pkcs7Rules(r *Report, prefix string) {
 	} else {
 		div = f.divisibleBy(total, bs)
 	}
-	r.Check(div, rule, "len(plaintext) + p is a multiple of 16", c.InstrPos(mk), "p = 16 - len % 16 (remainder identity)", "the padded length is not provably a multiple of the block size")
+	r.Check(div, rule, "len(plaintext) + p is a multiple of 16", c.InstrPos(mkIns), "p = 16 - len % 16 (remainder identity)", "the padded length is not provably a multiple of the block size")
 	// rand.Read (or io.ReadFull(rand.Reader, ...), which is what rand.Read is) with its error checked
 	nSrc := 0
 	for _, b := range fn.Blocks {
@@ -178,13 +210,13 @@ func (c *Ctx) pkcs7Rules(r *Report, prefix string) {
 				nSrc++
 				ok, why := c.errorChecked(call)
 				r.Check(ok, rule, "random-source failure is an error", c.InstrPos(call), why, why)
-				r.Check(call.Call.Args[0] == ssa.Value(mk), rule, "padding octets come from crypto/rand", c.InstrPos(call), "rand.Read(paddingText)", "the random octets are not read into the padding buffer")
+				r.Check(call.Call.Args[0] == mk, rule, "padding octets come from crypto/rand", c.InstrPos(call), "rand.Read(paddingText)", "the random octets are not read into the padding buffer")
 			}
 			if call := staticCallTo(valueOf(ins), "io.ReadFull"); call != nil && len(call.Call.Args) == 2 && isCryptoRandReader(call.Call.Args[0]) {
 				nSrc++
 				ok, why := c.errorChecked(call)
 				r.Check(ok, rule, "random-source failure is an error", c.InstrPos(call), why, why)
-				r.Check(call.Call.Args[1] == ssa.Value(mk), rule, "padding octets come from crypto/rand", c.InstrPos(call), "io.ReadFull(rand.Reader, paddingText)", "the random octets are not read into the padding buffer")
+				r.Check(call.Call.Args[1] == mk, rule, "padding octets come from crypto/rand", c.InstrPos(call), "io.ReadFull(rand.Reader, paddingText)", "the random octets are not read into the padding buffer")
 			}
 		}
 	}
